@@ -11,7 +11,7 @@ import (
 	"go/token"
 	"go/types"
 	"os"
-	"reflect"
+	"sort"
 	"strings"
 	"unsafe"
 
@@ -163,7 +163,7 @@ func asUnsigned(x value) (value, bool) {
 		return uint32(x), x >= 0
 	case int64:
 		return uint64(x), x >= 0
-	case uint, uint8, uint32, uint64, uintptr:
+	case uint, uint8, uint16, uint32, uint64, uintptr:
 		return x, true
 	}
 	panic(fmt.Sprintf("cannot convert %T to unsigned", x))
@@ -1105,9 +1105,29 @@ func callBuiltin(caller *frame, callpos token.Pos, fn *ssa.Builtin, args []value
 func rangeIter(x value, t types.Type) iter {
 	switch x := x.(type) {
 	case map[value]value:
-		return &mapIter{iter: reflect.ValueOf(x).MapRange()}
+		// deterministic order (re-execution must follow the same path): sorted by printed key
+		keys := make([]value, 0, len(x))
+		for k := range x {
+			keys = append(keys, k)
+		}
+		sort.Slice(keys, func(a, b int) bool { return toString(keys[a]) < toString(keys[b]) })
+		return &sortedMapIter{m: x, keys: keys}
 	case *hashmap:
-		return &hashmapIter{iter: reflect.ValueOf(x.entries()).MapRange()}
+		var keys []hashable
+		vals := map[string]value{}
+		for _, e := range x.entries() {
+			for ; e != nil; e = e.next {
+				keys = append(keys, e.key)
+				vals[toString(e.key)] = e.value
+			}
+		}
+		sort.Slice(keys, func(a, b int) bool { return toString(keys[a]) < toString(keys[b]) })
+		it := &sortedMapIter{hm: true}
+		for _, k := range keys {
+			it.keys = append(it.keys, k)
+			it.vals = append(it.vals, vals[toString(k)])
+		}
+		return it
 	case string:
 		return &stringIter{Reader: strings.NewReader(x)}
 	}
